@@ -264,6 +264,11 @@ void HttpMessage::readHeaders()
 	{
 		if (isspace(line[0])) // multiline: each continuation line is joined to the field value with one space (RFC 7230 3.2.4)
 		{
+			if (!headerName.ok()) // before any field there is nothing to continue: " Content-Length: 5" would be stored under the empty name
+			{
+				_socket->close();
+				return;
+			}
 			String more = line.trimmed();
 			if (more.ok())
 			{
